@@ -22,6 +22,11 @@ CLAIMED = {
             "Seeded swarm over placements of requested times relative to the accepted-step grid (inside, on a boundary, boundary +-1e-13..1e-11, x0, xend, many/none per step, duplicates), all methods, both directions, tiny spans, each run complete or stopped early by exactly one injected cause (step budget, terminal event inside a step holding requested times, persistent non-finite RHS from a chosen crossing); plus fixed boundary sweeps with budgets 1..9. Oracles: reported times == reference model bitwise; each value == the dense interpolant of the same run within tau_I+4e-12*F; t/y bitwise independent of dense_output.",
             "Accuracy against the exact solution is NOT decided (pure numerics). Stopping point read from observables (xend / terminal event time / dense span end); 1e-12 window at the stopping point as documented by the handler.",
             "DESIGN.md §5 C05"),
+    "C06": ("exploration",
+            "deterministic simulation: per-callback interpolant invariants over fault/modify/clamp-widened histories + dense-solution checks on runs stopped early by budget, terminal event or RHS fault",
+            "Seeded swarm over histories: transient finite RHS glitches force rejections and post-rejection steps, ModifiedSolution at chosen callbacks (BDF restart, FSAL refresh), max_step/min_step clamps, knobs, budget stops, terminal events, persistent NaN faults, both directions, the zero-length run. Low-level: the interpolant handed to every callback equals the state left behind by the previous callback at xold and y at x (tau_I), with matching bounds. High-level: span starts at x0, every reported time is answerable by sol and reproduces the stored sample, left/right limits agree at every interior step boundary, sol/sol_many agree and succeed on points of the span incl. both ends, OutOfRange clearly outside, NotEnabled without dense_output.",
+            "Trusted: tau_I tolerance (DESIGN §5); samples emitted through the handler's 1e-12 slack by extrapolating a step over a non-negligible fraction of its length are excluded (counted).",
+            "DESIGN.md §5 C06"),
     "C10": ("fault_enumeration",
             "deterministic simulation: terminal event = cancellation at a scheduler-placed instant (every step x 7 fractions x occurrence 1/2, + seeded swarm); oracle = bit-identical prefix of the un-cancelled twin run",
             "The terminal root is placed in EVERY accepted step of every catalogue base at 7 fractions (incl. 1e-9 from either boundary), as first and as second occurrence, with earlier/later non-terminal roots in the same step, with/without t_eval and dense output, both directions; plus a seeded swarm (1-4 event functions of four kinds, direction filters, scales, counts 1-3, roots on boundaries). Each case runs the terminal run and its twin with the flags cleared: status, final sample == event point bitwise, earlier samples and per-function events == the twin's prefix bitwise, nothing beyond t*, dense span covers t*.",
@@ -32,6 +37,16 @@ CLAIMED = {
             "Every budget N = 1..nstep+2 of every catalogue base (plain and with t_eval+events+dense, both directions), plus a seeded swarm of budgets, max_step (inf, > span, exact divisors, tiny) and first_step values, low-level (exact h, complete RHS log) and high-level. Oracles: nstep <= N+1; N >= unbudgeted nstep changes nothing; otherwise identical or NeedLargerNMax with bitwise prefixes of t, y, t_events, y_events; every accepted |h| <= max_step (x1.01 final step); every RHS abscissa within max_step of the current point (covers hinit); first trial step reaches exactly x0+first_step; an accepted first trial step has length first_step exactly; RK4 steps all equal first_step.",
             "Trusted: twin run as reference; per-method RHS-call count of one attempt for the 'first step accepted' clause; delta_t slack on reconstructed times.",
             "DESIGN.md §5 C11"),
+    "C12": ("exploration",
+            "deterministic simulation: observer non-interference on the complete RHS/Jacobian seam log (all 7 observer subsets vs the plain run) + in-process repeatability; cross-process determinism audit",
+            "Seeded swarm; per case the plain run is compared with every non-empty subset of {t_eval (<=400 times), dense_output, 1-4 non-terminal event functions with roots in most steps}: identical hash of the full (t,y,f) RHS log and (t,y) Jacobian log, identical nfev/njev/nlu/nstep/naccpt/nrejct/status, identical accepted-step samples when t_eval is off, sol(t_i) of the dense run reproduces the plain states; the full-observer run executed twice must have identical fingerprints. A transient RHS glitch at a crossing index amplifies any extra evaluation made on behalf of an observer.",
+            "Trusted: the seam log hash; cross-thread/process repeatability shown by tools/audit_determinism.sh rather than by this check.",
+            "DESIGN.md §5 C12"),
+    "C18": ("exploration",
+            "deterministic simulation: conservation between reported counters and seam crossings recorded by the simulator, under interrupt/modify/fault/budget histories",
+            "Seeded swarm over problems (incl. hostile), methods, directions, analytic vs the crate's own finite-difference Jacobian (run for real through an adapter so its RHS calls are tagged), high- and low-level entry, and abnormal exits (Interrupt/ModifiedSolution at chosen callbacks, budget, persistent non-finite RHS fault, glitch-forced rejections, terminal events, zero-length/tiny intervals). Oracles: nfev == RHS crossings outside Jacobian differencing; njev == Jacobian crossings; naccpt == callbacks-1 (low) == len(t)-1 (high, no t_eval/first_step; a terminal event may truncate the last interval to nothing); nstep >= naccpt; all zero for the zero-length run.",
+            "Trusted: SimIVP crossing counters and the in_jac tag of the FD adapter.",
+            "DESIGN.md §5 C18"),
     "C19": ("fault_enumeration",
             "deterministic simulation: simulator-owned SolOut returns Interrupt/ModifiedSolution at every callback index (and all ordered pairs) + seeded swarm; protocol reference model + bitwise twin runs",
             "For every catalogue base the cancellation (Interrupt) and the in-flight mutation (ModifiedSolution: identity, x2, perturbed) are delivered at EVERY callback index, plus all ordered pairs on short runs, plus a seeded swarm of 0-4-action plans over random problems/knobs/options. Oracles: an executable protocol model (first call, contiguity, direction, interpolant bounds and end-point values, ending at xend), no seam crossing after Interrupt, next crossing after ModifiedSolution is ode(x, written state) (BDF: then jac), identity plan bitwise equals the unmodified twin, power-of-two scaling on linear homogeneous problems scales everything that follows bitwise (Radau: within tolerance).",
